@@ -201,18 +201,30 @@ def _classes():
                     del self.gates[name]
 
         async def send_all(self, data):
+            data = bytes(data)
+            if not self.gated:           # handshake
+                self.peer.feed(data)
+                self.inbox += self.peer.pump()
+                return
+            # piecewise: the first half reaches the peer now, the rest when the call ends (normally or not); the plaintext
+            # the peer's TLS layer decodes for this call is known then.  Two calls in flight at once really corrupt the
+            # ciphertext stream: the peer's TLS layer is the judge.
+            idx = len(self.calls)
+            self.calls.append(b"")
             before = len(self.peer.plain_in)
-            self.peer.feed(bytes(data))
-            self.inbox += self.peer.pump()
-            if self.gated:
-                self.calls.append(bytes(self.peer.plain_in[before:]))
-                self.inflight += 1
-                if self.inflight > 1:
-                    self.overlap = True
-                try:
-                    await self._gate()
-                finally:
-                    self.inflight -= 1
+            half = len(data) // 2
+            self.peer.feed(data[:half])
+            self.peer.pump()
+            self.inflight += 1
+            if self.inflight > 1:
+                self.overlap = True
+            try:
+                await self._gate()
+            finally:
+                self.inflight -= 1
+                self.peer.feed(data[half:])
+                self.peer.pump()
+                self.calls[idx] = bytes(self.peer.plain_in[before:])
 
         async def send_eof(self):
             pass
@@ -282,9 +294,10 @@ def _code(task):
 class Session:
     """the real objects + the script interpreter (used by run_impl, the oracle and the case generator)"""
 
-    def __init__(self, loop, kind, progs):
+    def __init__(self, loop, kind, progs, readers=()):
         C = _classes()
         self.loop, self.kind, self.progs = loop, kind, progs
+        self.readers = set(readers)
         backend = C["MemBackend"]()
         backend.fair = kind in (KIND_CLIENT_FAIR, KIND_SERVER_FAIR, KIND_RAW, KIND_TLS_FAIR)
         self.transport = tr = C["MemTransport"](backend)
@@ -337,10 +350,14 @@ class Session:
             tls = loop.run_until_complete(AsyncTLSStreamTransport.wrap(
                 lower, tlskit.client_ctx(tlskit.TLS13), server_side=False, server_hostname="localhost"))
             lower.gated = True
+            lower.inbox.clear()      # (post-handshake session tickets: a reader must find nothing to read)
             self._keep.append(tls)
             self.tls = tls
         else:
             raise ValueError(kind)
+
+    async def _reader(self):
+        await self.tls.recv(1024)
 
     async def _program(self, prog):
         for pkt in prog:
@@ -389,7 +406,8 @@ class Session:
         t = a[1]
         if code == A_START:
             if self.tasks[t] is None:
-                self.tasks[t] = self.loop.create_task(self._program(self.progs[t]), name=str(t))
+                coro = self._reader() if t in self.readers else self._program(self.progs[t])
+                self.tasks[t] = self.loop.create_task(coro, name=str(t))
         elif code in (A_OK, A_FAIL):
             fut = self.transport.gates.get(str(t))
             if fut is not None and not fut.done():
@@ -413,9 +431,9 @@ class Session:
                 task.exception()
 
 
-def execute(kind, progs, actions, epilogue=False):
+def execute(kind, progs, actions, epilogue=False, readers=()):
     with detloop.running() as loop:
-        s = Session(loop, kind, progs)
+        s = Session(loop, kind, progs, readers)
         try:
             for a in actions:
                 s.act(a)
@@ -442,7 +460,7 @@ def run_impl(inp):
     kind, progs, actions = inp[0], inp[1], inp[2]
     if kind in (KIND_THREAD_TCP, KIND_THREAD_UDP):
         return run_threads(kind, progs, actions)
-    snaps, wire = execute(kind, progs, actions)
+    snaps, wire = execute(kind, progs, actions, readers=inp[3] if len(inp) > 3 else ())
     return [snaps, wire]
 
 
@@ -468,7 +486,7 @@ class ThreadCtl:
     """gates every socket.send / sendmsg of the client's socket: the calling thread parks (holding the client's send lock)
     until the script releases it, then the 'kernel' accepts the next scripted number of bytes"""
 
-    WATCHDOG = 20.0
+    WATCHDOG = 120.0     # generous: only a genuine hang ever waits that long (explicit conditions everywhere else)
 
     def __init__(self, sizes):
         import threading
@@ -661,7 +679,7 @@ def run_threads(kind, progs, actions, detail=False):
         if not ctl.errors:
             if kind == KIND_THREAD_TCP:
                 client.close()
-                peer.settimeout(5.0)
+                peer.settimeout(60.0)
                 wire = bytearray()
                 while True:
                     chunk = peer.recv(65536)
@@ -671,10 +689,15 @@ def run_threads(kind, progs, actions, detail=False):
                 pk = _parse_stream(wire)
                 packets = sorted(pk) if pk is not None else [bytes(wire)]
             else:
-                peer.settimeout(0.2)
+                # loopback datagrams are queued at the receiver when send() returns: every thread has been joined, so
+                # they are all there; the generous timeout only matters if one is missing (a failure anyway)
                 expected = sum(len(progs[t]) for t in threads if results.get(t) == 10)
+                peer.settimeout(30.0)
                 try:
-                    while len(packets) < expected + 1:
+                    while len(packets) < expected:
+                        packets.append(peer.recv(65536))
+                    peer.setblocking(False)
+                    while True:                      # anything beyond what was sent?
                         packets.append(peer.recv(65536))
                 except (TimeoutError, OSError):
                     pass
@@ -693,6 +716,142 @@ def run_threads(kind, progs, actions, detail=False):
     if detail:
         return packets, statuses, list(ctl.gate_log)
     return [packets, statuses]
+
+
+# ------------------------------------------------------------------------------------------------ params from the source
+
+_FL = "src/easynetwork/lowlevel/api_async/backend/_common/fair_lock.py"
+_TLS = "src/easynetwork/lowlevel/api_async/transports/tls.py"
+
+
+def _func(path, cls, name):
+    import ast
+    import os
+
+    from common import runner
+
+    try:
+        tree = ast.parse(open(os.path.join(runner.REPO, path)).read())
+    except (OSError, SyntaxError) as exc:
+        raise runner.TranslateError(f"{path}: {exc}")
+    for node in tree.body:
+        if isinstance(node, ast.ClassDef) and node.name == cls:
+            for sub in node.body:
+                if isinstance(sub, (ast.FunctionDef, ast.AsyncFunctionDef)) and sub.name == name:
+                    return sub
+    raise runner.TranslateError(f"{path}: {cls}.{name} not found")
+
+
+def _is_self_attr(node, attr):
+    import ast
+
+    return isinstance(node, ast.Attribute) and isinstance(node.value, ast.Name) and node.value.id == "self" and node.attr == attr
+
+
+def source_params():
+    """Facts of the source that the models transcribe, read with `ast`, fail closed.  Every value must be True for the
+    model (Conc/FairLock.v, Conc/TlsSend.v) to be the code: Props/C12.v proves exactly that."""
+    import ast
+
+    from common import runner
+
+    def bad(msg):
+        raise runner.TranslateError(msg)
+
+    out = {}
+    # ---- FairLock.acquire
+    fn = _func(_FL, "FairLock", "acquire")
+    ifs = [n for n in fn.body if isinstance(n, ast.If)]
+    if len(ifs) != 1:
+        bad("FairLock.acquire: expected one top-level `if`")
+    cond = ifs[0].test
+    if isinstance(cond, ast.BoolOp) and isinstance(cond.op, ast.Or) and len(cond.values) == 2 \
+            and _is_self_attr(cond.values[0], "_locked") and _is_self_attr(cond.values[1], "_waiters"):
+        out["fairlock_fast_path_checks_queue"] = True
+    elif _is_self_attr(cond, "_locked"):
+        out["fairlock_fast_path_checks_queue"] = False
+    else:
+        bad("FairLock.acquire: unrecognised fast-path condition")
+    tries = [n for n in ast.walk(ifs[0]) if isinstance(n, ast.Try)]
+    inner = [t for t in tries if t.finalbody]
+    outer = [t for t in tries if t.handlers]
+    if len(inner) != 1 or len(outer) != 1:
+        bad("FairLock.acquire: expected try/finally inside try/except")
+    fin = inner[0].finalbody
+    if len(fin) != 1 or not isinstance(fin[0], ast.Expr) or not isinstance(fin[0].value, ast.Call):
+        bad("FairLock.acquire: unrecognised finally block")
+    call = fin[0].value
+    if not (isinstance(call.func, ast.Attribute) and _is_self_attr(call.func.value, "_waiters")):
+        bad("FairLock.acquire: the finally block does not act on self._waiters")
+    if call.func.attr == "remove" and len(call.args) == 1 and isinstance(call.args[0], ast.Name) and call.args[0].id == "waiter":
+        out["fairlock_leave_removes_own_waiter"] = True
+    elif call.func.attr in ("popleft", "pop"):
+        out["fairlock_leave_removes_own_waiter"] = False
+    else:
+        bad("FairLock.acquire: unrecognised way of leaving the queue")
+    body = outer[0].handlers[0].body
+    if len(outer[0].handlers) != 1:
+        bad("FairLock.acquire: expected one except clause")
+    if len(body) == 2 and isinstance(body[0], ast.If) and isinstance(body[1], ast.Raise) \
+            and isinstance(body[0].test, ast.UnaryOp) and isinstance(body[0].test.op, ast.Not) \
+            and _is_self_attr(body[0].test.operand, "_locked") and len(body[0].body) == 1 \
+            and isinstance(body[0].body[0], ast.Expr) and isinstance(body[0].body[0].value, ast.Call) \
+            and _is_self_attr(body[0].body[0].value.func, "_wake_up_first") and not body[0].orelse:
+        out["fairlock_cancel_rewakes_when_free"] = True
+    elif len(body) == 1 and isinstance(body[0], ast.Raise):
+        out["fairlock_cancel_rewakes_when_free"] = False
+    else:
+        bad("FairLock.acquire: unrecognised except clause")
+    # ---- FairLock._wake_up_first
+    fn = _func(_FL, "FairLock", "_wake_up_first")
+    subs = [n for n in ast.walk(fn) if isinstance(n, ast.Subscript) and _is_self_attr(n.value, "_waiters")]
+    if len(subs) != 1:
+        bad("FairLock._wake_up_first: expected one subscript of self._waiters")
+    idx = subs[0].slice
+    if isinstance(idx, ast.Constant) and idx.value == 0:
+        out["fairlock_wakes_the_head"] = True
+    elif isinstance(idx, ast.UnaryOp) or (isinstance(idx, ast.Constant) and idx.value != 0):
+        out["fairlock_wakes_the_head"] = False
+    else:
+        bad("FairLock._wake_up_first: unrecognised index")
+    # ---- TLS send path
+    fn = _func(_TLS, "AsyncTLSStreamTransport", "send_all_from_iterable")
+    calls = [n.func.attr for n in ast.walk(fn) if isinstance(n, ast.Call) and isinstance(n.func, ast.Attribute)
+             and _is_self_attr(n.func.value, "_data_deque")]
+    loops = [n for n in ast.walk(fn) if isinstance(n, (ast.For, ast.AsyncFor, ast.While))]
+    if calls == ["extend"] and not loops:
+        out["tls_whole_packet_enters_backlog_at_once"] = True
+    elif "append" in calls or loops:
+        out["tls_whole_packet_enters_backlog_at_once"] = False
+    else:
+        bad("AsyncTLSStreamTransport.send_all_from_iterable: unrecognised backlog handling")
+    # every read of the write BIO and every send on the wrapped transport, anywhere in the class, under the send lock
+    _func(_TLS, "AsyncTLSStreamTransport", "_retry_ssl_method")
+    import os
+
+    tree = ast.parse(open(os.path.join(runner.REPO, _TLS)).read())
+    cls = [n for n in tree.body if isinstance(n, ast.ClassDef) and n.name == "AsyncTLSStreamTransport"][0]
+    under_lock = set()
+    for node in ast.walk(cls):
+        if isinstance(node, ast.AsyncWith) and any(
+                isinstance(i.context_expr, ast.Attribute) and i.context_expr.attr.endswith("__transport_send_lock")
+                for i in node.items):
+            for sub in ast.walk(node):
+                under_lock.add(id(sub))
+    reads = [n for n in ast.walk(cls) if isinstance(n, ast.Call) and isinstance(n.func, ast.Attribute) and n.func.attr == "read"
+             and _is_self_attr(n.func.value, "_write_bio")]
+    sends = [n for n in ast.walk(cls) if isinstance(n, ast.Call) and isinstance(n.func, ast.Attribute) and n.func.attr == "send_all"
+             and _is_self_attr(n.func.value, "_transport")]
+    if not reads or not sends:
+        bad("AsyncTLSStreamTransport: no write-BIO read / transport send found")
+    out["tls_bio_read_under_send_lock"] = all(id(n) in under_lock for n in reads)
+    out["tls_transport_send_under_send_lock"] = all(id(n) in under_lock for n in sends)
+    return out
+
+
+def params():
+    p = source_params()
+    return "".join(f"Definition {k} : bool := {'true' if v else 'false'}.\n" for k, v in sorted(p.items()))
 
 
 # ------------------------------------------------------------------------------------------------ packets
@@ -733,7 +892,8 @@ def oracle(inp):
     kind, progs, actions = inp[0], inp[1], inp[2]
     if kind in (KIND_THREAD_TCP, KIND_THREAD_UDP):
         return oracle_threads(kind, progs, actions)
-    snaps, wire = execute(kind, progs, actions, epilogue=True)
+    readers = set(inp[3]) if len(inp) > 3 else set()
+    snaps, wire = execute(kind, progs, actions, epilogue=True, readers=readers)
     if isinstance(wire, list):      # TLS: plaintext decrypted by the peer, per transport call
         if wire and wire[-1] == b"<overlap>":
             return ("interleaved: two transport.send_all calls of the TLS transport were in flight at once (on a transport "
@@ -741,7 +901,7 @@ def oracle(inp):
         wire = b"".join(wire)
     final = snaps[-1][1] if snaps else [0] * len(progs)
     for t, st in enumerate(final):
-        if st in (1, 2):
+        if st in (1, 2) and t not in readers:
             return f"stranded: task {t} never finishes its send although every transport suspension was ended (lost wake-up)"
     harmed = {a[1] for a in actions if a[0] in (A_FAIL, A_CANCEL)}
     expected = {}
@@ -819,12 +979,12 @@ def signature(inp, failure):
 def shrink(inp):
     kind, progs, actions = inp[0], inp[1], inp[2]
     for i in range(len(actions)):
-        yield [kind, progs, actions[:i] + actions[i + 1:]]
+        yield [kind, progs, actions[:i] + actions[i + 1:]] + list(inp[3:])
 
 
 # ------------------------------------------------------------------------------------------------ cases
 
-def _enabled(statuses):
+def _enabled(statuses, readers=()):
     """actions the implementation can meaningfully perform in a state with these task statuses"""
     out = []
     for t, st in enumerate(statuses):
@@ -833,7 +993,9 @@ def _enabled(statuses):
         elif st == 1:
             out.append([A_CANCEL, t])
         elif st == 2:
-            out += [[A_OK, t], [A_CANCEL, t], [A_FAIL, t]]
+            out += [[A_OK, t], [A_CANCEL, t]]
+            if t not in readers:      # (a failed flush of a reader closes both BIOs: the TLS session is over, C08/C09)
+                out.append([A_FAIL, t])
     return out
 
 
@@ -849,7 +1011,7 @@ def _queue_cancel(a, statuses):
     return a[0] == A_CANCEL and statuses[a[1]] == 1
 
 
-def _dfs(kind, progs, max_actions, batch2, budget):
+def _dfs(kind, progs, max_actions, batch2, budget, readers=()):
     """breadth-first: ALL scripts of at most max_actions non-loop actions (complete up to the length reached when the
     budget runs out); each step = one enabled action + settle, or (batch2) an ordered pair of enabled actions on
     different tasks + one loop iteration + settle"""
@@ -861,7 +1023,7 @@ def _dfs(kind, progs, max_actions, batch2, budget):
         for acts, statuses, used in level:
             if used >= max_actions:
                 continue
-            en = _enabled(statuses)
+            en = _enabled(statuses, readers)
             steps = [[a, [A_SETTLE]] for a in en]
             if batch2 and used + 2 <= max_actions:
                 for a, b in itertools.permutations(en, 2):
@@ -872,7 +1034,7 @@ def _dfs(kind, progs, max_actions, batch2, budget):
                             steps.append([a, b, [A_SETTLE]])
             for step in steps:
                 acts2 = acts + step
-                snaps, _ = execute(kind, progs, acts2)
+                snaps, _ = execute(kind, progs, acts2, readers=readers)
                 count += 1
                 yield acts2
                 if count >= budget:
@@ -881,10 +1043,10 @@ def _dfs(kind, progs, max_actions, batch2, budget):
         level = nxt
 
 
-def _random_script(kind, progs, rng, rounds):
+def _random_script(kind, progs, rng, rounds, readers=()):
     acts, statuses = [], [0] * len(progs)
     for _ in range(rounds):
-        en = _enabled(statuses)
+        en = _enabled(statuses, readers)
         if not en:
             break
         k = min(len(en), rng.choice([1, 1, 2, 2, 3]))
@@ -907,7 +1069,7 @@ def _random_script(kind, progs, rng, rounds):
             acts += rng.choice([[[A_SETTLE]], [[A_TICK]], [[A_TICK], [A_SETTLE]], [[A_TICK], [A_TICK]]])
         else:
             acts += [[A_SETTLE]]
-        snaps, _ = execute(kind, progs, acts)
+        snaps, _ = execute(kind, progs, acts, readers=readers)
         statuses = snaps[-1][1]
     if not acts or acts[-1] != [A_SETTLE]:
         acts.append([A_SETTLE])
@@ -939,16 +1101,19 @@ def mkplain(shape, rng=None):
     return progs
 
 
-def _case(kind, progs, acts, tag):
-    snaps, _ = execute(kind, progs, acts)
+def _case(kind, progs, acts, tag, readers=None):
+    snaps, _ = execute(kind, progs, acts, readers=readers or ())
     tags = [KIND_NAMES[kind], tag, f"tasks{len(progs)}"]
+    if readers:
+        tags.append("tls-reader")
     if any(a[0] == A_CANCEL for a in acts):
         tags.append("cancel")
     if any(a[0] == A_FAIL for a in acts):
         tags.append("fail")
     if any(12 in s[1] for s in snaps):
         tags.append("busy")
-    return dict(input=[kind, progs, acts], tags=tags, nontrivial=_nontrivial(snaps))
+    inp = [kind, progs, acts] + ([sorted(readers or ())] if kind in (KIND_TLS, KIND_TLS_FAIR) else [])
+    return dict(input=inp, tags=tags, nontrivial=_nontrivial(snaps))
 
 
 def cases(tier, rng, escalate):
@@ -968,13 +1133,15 @@ def cases(tier, rng, escalate):
                 yield _case(kind, progs, acts, "exhaustive")
     # TLS transport under concurrent senders
     for kind in (KIND_TLS, KIND_TLS_FAIR):
-        for shape in ([2, 1], [1, 1, 1]):
+        for shape, readers in (([2, 1], ()), ([1, 1, 1], ()), ([1, 1, 0], (2,)), ([2, 1, 0], (2,))):
             progs = mkplain(shape)
-            for acts in _dfs(kind, progs, 7 if thorough else 5, True, 1500 if thorough else 160):
-                yield _case(kind, progs, acts, "exhaustive")
+            for acts in _dfs(kind, progs, 7 if thorough else 5, True, 1200 if thorough else 130, readers):
+                yield _case(kind, progs, acts, "exhaustive", readers)
         for _ in range(1500 if thorough else 200):
-            progs = mkplain([rng.choice([1, 1, 2, 3]) for _ in range(rng.choice([2, 3, 3, 4]))], rng)
-            yield _case(kind, progs, _random_script(kind, progs, rng, rng.randrange(3, 14)), "random")
+            n = rng.choice([2, 3, 3, 4])
+            readers = (n - 1,) if rng.random() < 0.4 else ()
+            progs = mkplain([0 if t in readers else rng.choice([1, 1, 2, 3]) for t in range(n)], rng)
+            yield _case(kind, progs, _random_script(kind, progs, rng, rng.randrange(3, 14), readers), "random", readers)
     # blocking clients with real threads: starts interleaved with releases of whichever thread is inside send
     for kind, count in ((KIND_THREAD_TCP, 300 if thorough else 60), (KIND_THREAD_UDP, 150 if thorough else 30)):
         for _ in range(count):
